@@ -65,7 +65,7 @@ fn go_cloned(script: &[u16], w: fn(&Model)) {
     w(&m);
 }
 
-// @verif family=SEQ quick=C13 thorough=C03,C10 timeout=900 owner=C13
+// @verif family=SEQ quick=C13 thorough=C03,C10 timeout=1500 owner=C13
 // @bounds kind=Cloned<ConIterOfSlice<Cl>> len<=3; prefix<=3 next(); next_chunk(n<=len+2) consuming j; single/len query; end in {drop, into_seq_iter all/partly}; clone ledger, source unchanged
 #[kani::proof]
 #[kani::unwind(7)]
@@ -73,7 +73,7 @@ fn cloned_chunk() {
     go_cloned(S_CHUNK, wit);
 }
 
-// @verif family=SEQ quick=C13 thorough=C03,C10 timeout=900 owner=C13
+// @verif family=SEQ quick=C13 thorough=C03,C10 timeout=1500 owner=C13
 // @bounds kind=Cloned<ConIterOfSlice<Cl>> len<=3; prefix<=3 next(); buffered_iter(n<=len+2) 1-2 pulls partly consumed; single/len query; end in {drop, into_seq_iter all/partly}; clone ledger
 #[kani::proof]
 #[kani::unwind(7)]
@@ -81,7 +81,7 @@ fn cloned_buf() {
     go_cloned(S_BUF, wit);
 }
 
-// @verif family=SEQ quick=C13 thorough=C06 timeout=900 owner=C13
+// @verif family=SEQ quick=C13 thorough=C06 timeout=1500 owner=C13
 // @bounds kind=Cloned<ConIterOfSlice<Cl>> len<=3; prefix<=3 next(); skip_to_end; any pull; single/len query; end in {drop, into_seq_iter all/partly}
 #[kani::proof]
 #[kani::unwind(7)]
@@ -98,7 +98,7 @@ fn go_copied(script: &[u16], w: fn(&Model)) {
     w(&m);
 }
 
-// @verif family=SEQ quick=C13 thorough=C03,C10 timeout=900 owner=C13
+// @verif family=SEQ quick=C13 thorough=C03,C10 timeout=1500 owner=C13
 // @bounds kind=Copied<ConIterOfSlice<usize>> len<=3 (contents = position); prefix<=3 next(); next_chunk(n<=len+2) consuming j; single/len query; end in {drop, into_seq_iter all/partly}
 #[kani::proof]
 #[kani::unwind(7)]
@@ -106,7 +106,7 @@ fn copied_chunk() {
     go_copied(S_CHUNK, wit);
 }
 
-// @verif family=SEQ thorough=C13,C03 timeout=900 owner=C13
+// @verif family=SEQ thorough=C13,C03 timeout=1500 owner=C13
 // @bounds kind=Copied<ConIterOfSlice<usize>> len<=3; prefix<=3 next(); buffered_iter(n<=len+2) 1-2 pulls partly consumed; single/len query; end in {drop, into_seq_iter all/partly}
 #[kani::proof]
 #[kani::unwind(7)]
@@ -114,7 +114,7 @@ fn copied_buf() {
     go_copied(S_BUF, wit);
 }
 
-// @verif family=SEQ quick=C13 thorough=C01,C02 timeout=900 owner=C13
+// @verif family=SEQ quick=C13 thorough=C01,C02 timeout=1500 owner=C13
 // @bounds kind=Cloned<ConIterOfIter<&Cl,RefProbe>> (wrapper over an iterator of references) len<=3; prefix<=3 next(); next_chunk(n<=len+2) consuming j; single/len query; end in {drop, into_seq_iter all/partly}; clone ledger
 #[kani::proof]
 #[kani::unwind(7)]
@@ -131,7 +131,7 @@ fn take_copy(v: &usize) -> usize {
     *v
 }
 
-// @verif family=SEQ quick=C13 thorough=C03,C05 timeout=900 owner=C13
+// @verif family=SEQ quick=C13 thorough=C03,C05 timeout=1500 owner=C13
 // @bounds kind=Copied<ConIterOfIter<&usize,RefProbe>> (copied() over the wrapper of an iterator of references) len<=2; prefix<=3 next() (so the end may already have been reported); buffered_iter(2) 1-2 pulls partly consumed; single/len query; end in {drop, into_seq_iter all/partly}
 #[kani::proof]
 #[kani::unwind(7)]
@@ -145,7 +145,7 @@ fn copied_iter_buf() {
     let _ = take_copy;
 }
 
-// @verif family=SEQ quick=C13 thorough=C03,C05 timeout=900 owner=C13
+// @verif family=SEQ quick=C13 thorough=C03,C05 timeout=1500 owner=C13
 // @bounds kind=Cloned<ConIterOfIter<&Cl,RefProbe>> len<=2; prefix<=3 next(); buffered_iter(2) 1-2 pulls partly consumed; single/len query; end in {drop, into_seq_iter all/partly}; clone ledger
 #[kani::proof]
 #[kani::unwind(7)]
@@ -158,7 +158,7 @@ fn cloned_iter_buf() {
     kani::cover!(m.w_past_end, "W: a buffered pull after the end was reported");
 }
 
-// @verif family=SEQ quick=C13 thorough=C06 timeout=900 owner=C13
+// @verif family=SEQ quick=C13 thorough=C06 timeout=1500 owner=C13
 // @bounds kind=Copied<ConIterOfIter<&usize,RefProbe>> len<=2; prefix<=2 next(); skip_to_end; any pull (single, chunk, buffered(2) x2); single/len query; end in {drop, into_seq_iter all/partly}
 #[kani::proof]
 #[kani::unwind(7)]
@@ -189,7 +189,7 @@ fn mkvec(len: usize, cap: usize) -> Vec<Tracked> {
     v
 }
 
-// @verif family=SEQ leak=1 quick=C15 timeout=900 owner=C15
+// @verif family=SEQ leak=1 quick=C15 timeout=1500 owner=C15
 // @bounds kind=Vec<Tracked> len<=3 capacity 4; prefix<=3 next(); next_chunk(n<=len+2) consuming j; single/len query; end in {drop, into_seq_iter all/partly}; CBMC memory-leak check at exit
 #[kani::proof]
 #[kani::unwind(7)]
@@ -199,7 +199,7 @@ fn leak_vec_chunk() {
     wit(&m);
 }
 
-// @verif family=SEQ leak=1 quick=C15 timeout=900 owner=C15
+// @verif family=SEQ leak=1 quick=C15 timeout=1500 owner=C15
 // @bounds kind=Vec<Tracked> len=capacity=3; prefix<=3 next(); buffered_iter(n<=5) 1-2 pulls partly consumed; single/len query; end in {drop, into_seq_iter all/partly}; CBMC memory-leak check
 #[kani::proof]
 #[kani::unwind(7)]
@@ -208,7 +208,7 @@ fn leak_vec3_buf() {
     wit(&m);
 }
 
-// @verif family=SEQ leak=1 quick=C15 timeout=900 owner=C15
+// @verif family=SEQ leak=1 quick=C15 timeout=1500 owner=C15
 // @bounds kind=Vec<Tracked> len<=3 capacity 4; prefix<=1 next(); then a len query or a single pull; then a len query or next_chunk(n<=len+2) -- includes histories in which NOTHING is pulled; end in {drop, into_seq_iter all/partly}; CBMC memory-leak check
 #[kani::proof]
 #[kani::unwind(7)]
@@ -219,7 +219,7 @@ fn leak_vec_idle() {
     kani::cover!(m.pos == 1, "W: exactly one element was pulled");
 }
 
-// @verif family=SEQ leak=1 quick=C15 timeout=900 owner=C15
+// @verif family=SEQ leak=1 quick=C15 timeout=1500 owner=C15
 // @bounds kind=[Tracked;3]; prefix<=1 next(); len query or single pull; len query or next_chunk(n<=5) -- includes histories in which nothing is pulled; end in {drop, into_seq_iter all/partly}; CBMC memory-leak check
 #[kani::proof]
 #[kani::unwind(7)]
@@ -228,7 +228,7 @@ fn leak_array_idle() {
     kani::cover!(m.pos == 0, "W: nothing was pulled");
 }
 
-// @verif family=SEQ leak=1 quick=C15 timeout=900 owner=C15
+// @verif family=SEQ leak=1 quick=C15 timeout=1500 owner=C15
 // @bounds kind=Vec<Tracked> len<=3 capacity 4; prefix<=3 next(); skip_to_end; any pull; single/len query; end in {drop, into_seq_iter all/partly}; CBMC memory-leak check
 #[kani::proof]
 #[kani::unwind(7)]
@@ -238,7 +238,7 @@ fn leak_vec_skip() {
     wit_skip(&m);
 }
 
-// @verif family=SEQ leak=1 quick=C15 timeout=900 owner=C15
+// @verif family=SEQ leak=1 quick=C15 timeout=1500 owner=C15
 // @bounds kind=[Tracked;3]; prefix<=3 next(); next_chunk(n<=5) consuming j; single/len query; end in {drop, into_seq_iter all/partly} (the remainder Vec is heap allocated); CBMC memory-leak check
 #[kani::proof]
 #[kani::unwind(7)]
@@ -247,7 +247,7 @@ fn leak_array_chunk() {
     wit(&m);
 }
 
-// @verif family=SEQ leak=1 quick=C15 timeout=900 owner=C15
+// @verif family=SEQ leak=1 quick=C15 timeout=1500 owner=C15
 // @bounds kind=ConIterOfIter<Tracked,OwningProbe> len<=3; prefix<=2 next(); buffered_iter(2) 1-2 pulls partly consumed (internal Vec<Option<T>> buffer); single/len query; end in {drop, into_seq_iter all/partly}; CBMC memory-leak check
 #[kani::proof]
 #[kani::unwind(7)]
@@ -258,7 +258,7 @@ fn leak_iter_owning_buf() {
     wit(&m);
 }
 
-// @verif family=SEQ leak=1 quick=C15 timeout=900 owner=C15
+// @verif family=SEQ leak=1 quick=C15 timeout=1500 owner=C15
 // @bounds kind=ConIterOfIter<Tracked,OwningProbe> len<=3; prefix<=3 next(); next_chunk(n<=len+2) (internal Vec buffer) consuming j; single/len query; end in {drop, into_seq_iter all/partly}; CBMC memory-leak check
 #[kani::proof]
 #[kani::unwind(7)]
@@ -269,7 +269,7 @@ fn leak_iter_owning_chunk() {
     wit(&m);
 }
 
-// @verif family=SEQ leak=1 quick=C15 timeout=600 owner=C15
+// @verif family=SEQ leak=1 quick=C15 timeout=1500 owner=C15
 // @bounds kind=Vec<Box<u8>> (heap elements) len=2 capacity 2; k<=2 next() whose results are dropped by the caller; next_chunk(2) of which j<=1 items are consumed; drop or into_seq_iter+drop; repeated twice (create/consume/drop does not accumulate); CBMC memory-leak check
 #[kani::proof]
 #[kani::unwind(5)]
@@ -321,7 +321,7 @@ fn two_step<I: ConcurrentIter, F: Fn(I::Item) -> usize>(it: &I, m: &mut Model, i
     step(it, m, &i2, op, f);
 }
 
-// @verif family=SEQ quick=C19 timeout=900 owner=C19
+// @verif family=SEQ quick=C19 timeout=1500 owner=C19
 // @bounds collection=Vec<u8> len<=3 (symbolic contents); iterators a=v.con_iter(), b=v.con_iter(), c=a.clone() taken after a symbolic prefix of <=2 pulls on a; then 3 symbolic operations (next_id_and_value / next_chunk(n<=len+2) / len query), each on a symbolic one of a,b,c; pointer identity of every delivered reference; v compared with a copy afterwards
 #[kani::proof]
 #[kani::unwind(7)]
@@ -378,7 +378,7 @@ fn indep_vec() {
     }
 }
 
-// @verif family=SEQ quick=C19 timeout=900 owner=C19
+// @verif family=SEQ quick=C19 timeout=1500 owner=C19
 // @bounds collection=[u8;3] (symbolic contents) and a sub-slice of it; iterators a=arr.con_iter(), b=(&arr[1..]).con_iter() (positions shifted by one), c=a.clone() after <=2 pulls and an optional next_chunk(n<=5) that may overshoot the end; 3 symbolic operations on a symbolic one of them; pointer identity; array compared with a copy afterwards
 #[kani::proof]
 #[kani::unwind(7)]
@@ -430,7 +430,7 @@ fn indep_array_slice() {
     assert!(arr[0] == copy[0] && arr[1] == copy[1] && arr[2] == copy[2], "C19: non-consuming iteration modified the array");
 }
 
-// @verif family=SEQ quick=C19 timeout=900 owner=C19
+// @verif family=SEQ quick=C19 timeout=1500 owner=C19
 // @bounds collection=Range<usize> start<=5, len<=3; iterators a=r.con_iter(), b=r.con_iter(), c=a.clone() after <=2 pulls; 3 symbolic operations on a symbolic one of them; the range value is compared afterwards
 #[kani::proof]
 #[kani::unwind(7)]
@@ -477,7 +477,7 @@ fn indep_range() {
 // C14 clause "no sequence of safe public calls produces two owners of one element": the low-level
 // AtomicIter API (public module `iter::atomic_iter`) is safe and lets a caller move the same element
 // out twice. Known finding KF-C14-lowlevel; the harness isolates the two smallest call sequences.
-// @verif family=SEQ quick=C14 timeout=300
+// @verif family=SEQ quick=C14 timeout=1500
 // @bounds kind=Vec<Tracked> len=2; safe calls only: either AtomicIter::get(0) twice, or next() followed by counter().store(0) and next()  (isolates known finding KF-C14-lowlevel)
 #[kani::proof]
 #[kani::unwind(5)]
